@@ -345,4 +345,18 @@ def dictPeersStale : List (Option Bytes × Nat) → List Peer
   | [] => []
   | (ip?, port) :: r => { ip := ip?.getD [], port := port } :: dictPeersStale r
 
+/-! ### `retry in` of a failure reply -/
+
+/-- The delay a failure reply's `retry in` (minutes, a decimal string) asks for, in nanoseconds, as the repaired
+`tracker.ParseRetryIn` computes it (fix for finding C15-F4): nothing for anything but a positive decimal number that fits an int, at most a day. -/
+def retryMinutesOf (n : Nat) : Nat :=
+  if n = 0 ∨ n > 9223372036854775807 then 0 else min n 1440
+
+def retryDigits (t : String) : Nat :=
+  if t.isEmpty ∨ !t.toList.all Char.isDigit then 0 else retryMinutesOf t.toNat! * 60000000000
+
+def retryInNs (s : String) : Nat :=
+  -- strconv.Atoi: an optional sign, then decimal digits only
+  retryDigits (if s.startsWith "+" then (s.drop 1).toString else s)
+
 end Rain.TrackerWire
